@@ -12,7 +12,8 @@ from ..runner import Outcome, evaluate, fail
 ID = 'C17'
 LEVEL = 'exploration'
 RULE = ('(a) the lattice hashing{blake2b 8..64, sha2/sha3 x4} x cipher{none, aes_gcm key_bits x nonce_bits, chacha20} x user '
-        'KDF{scrypt n,r,p; blake2b} x chunker bounds, enumerated completely in the thorough tier (sampled by index in quick); '
+        'KDF{scrypt n,r,p; blake2b} x chunker bounds (a third of the points next to a second repository with other settings that shares '
+        'the cache directory), enumerated completely in the thorough tier (sampled by index in quick); '
         '(b) generated settings dictionaries = a valid base with 1..2 mutations (out-of-range/mistyped values, unknown keys at '
         'each level, adapter names of the wrong role, min>max, tiny/huge nonce_bits, scrypt n not a power of two); (c) add-key '
         'chains of length 1..5 over {independent, shared, clone} with generated KDF settings and passwords incl. long ones '
@@ -65,7 +66,11 @@ MUT_PATHS = [['hashing', 'name'], ['hashing', 'length'], ['hashing', 'bits'], ['
 def cases(draw):
     kind = draw(st.sampled_from(['lattice', 'dict', 'dict', 'chain']))
     if kind == 'lattice':
-        return {'kind': 'lattice', 'index': draw(st.integers(0, len(LATTICE) - 1))}
+        c = {'kind': 'lattice', 'index': draw(st.integers(0, len(LATTICE) - 1))}
+        if draw(st.integers(0, 2)) == 0:
+            # another repository with other settings lives on the same machine and uses the same (default) cache directory
+            c['neighbour'] = draw(st.integers(0, len(LATTICE) - 1))
+        return c
     if kind == 'dict':
         muts = []
         for _ in range(draw(st.integers(1, 2))):
@@ -116,14 +121,14 @@ def _probe_tree(work, mx):
     return src, {os.path.join(real, f['path']).lstrip('/'): (world.content(f['content']), f['mtime_ns']) for f in files}
 
 
-def usable(backend, cred, work, mx, tag=''):
+def usable(backend, cred, work, mx, tag='', cache=None):
     """-> None if a fresh Repository can back up and restore with these credentials, else a failure."""
     src, want = _probe_tree(work, mx)
     for rnd in (1, 2):
         async def snap(repo):
             return await repo.snapshot(paths=[Path(src)])
         try:
-            world.run_cmd(backend, cred, snap, concurrent=2)
+            world.run_cmd(backend, cred, snap, concurrent=2, cache=cache)
         except Exception as e:
             return fail('unusable', f'accepted settings{tag}: snapshot #{rnd} by a fresh Repository raised {type(e).__name__}: {e}',
                         exception=type(e).__name__, stage='snapshot')
@@ -133,7 +138,7 @@ def usable(backend, cred, work, mx, tag=''):
             await repo.list_snapshots()
             return await repo.restore(path=Path(tgt))
         try:
-            world.run_cmd(backend, cred, rest, concurrent=2)
+            world.run_cmd(backend, cred, rest, concurrent=2, cache=cache)
         except Exception as e:
             return fail('unusable', f'accepted settings{tag}: restore #{rnd} raised {type(e).__name__}: {e}',
                         exception=type(e).__name__, stage='restore')
@@ -147,7 +152,7 @@ def usable(backend, cred, work, mx, tag=''):
     async def cl(repo):
         await repo.clean()
     try:
-        world.run_cmd(backend, cred, cl, concurrent=2)
+        world.run_cmd(backend, cred, cl, concurrent=2, cache=cache)
     except Exception as e:
         return fail('unusable', f'accepted settings{tag}: clean raised {type(e).__name__}: {e}', exception=type(e).__name__,
                     stage='clean')
@@ -190,10 +195,11 @@ def _init_case(case, work):
     store = membackend.Store()
     backend = world.backend_for('mem', store)
     keyfile = os.path.join(work, 'key.out')
+    cache = os.path.join(work, 'shared-cache') if case.get('neighbour') is not None else None
     enc_requested = not (isinstance(s, dict) and 'encryption' in s and s['encryption'] is None)
     pw = b'probe password'
     try:
-        key, config, _ = world.run_init(backend, password=pw, settings=s, concurrent=2, key_path=keyfile)
+        key, config, _ = world.run_init(backend, password=pw, settings=s, concurrent=2, key_path=keyfile, cache=cache)
     except Exception as e:
         classes.append('rejected')
         if case['kind'] == 'lattice':
@@ -203,12 +209,25 @@ def _init_case(case, work):
                                 f'/ key file written={os.path.exists(keyfile)}', settings=s), classes, True)
         return Outcome(None, classes, True, {'settings': s, 'outcome': 'rejected: ' + type(e).__name__})
     classes.append('accepted')
+    if case.get('neighbour') is not None:
+        # afterwards another repository is created and used on the same machine, with the same cache directory
+        nstore = membackend.Store()
+        nb = world.backend_for('mem', nstore)
+        try:
+            nkey, ncfg, _ = world.run_init(nb, password=b'neighbour', settings=lattice_settings(case['neighbour']), concurrent=2, cache=cache)
+
+            async def nsnap(repo):
+                await repo.list_snapshots()
+            world.run_cmd(nb, world.Cred(b'neighbour' if nkey is not None else None, nkey), nsnap, concurrent=2, cache=cache)
+        except Exception as e:
+            return Outcome(fail('valid-rejected', f'neighbour repository with documented valid settings failed: {type(e).__name__}: {e}'), classes)
+        classes.append('shared-cache-with-another-repository')
     cred = world.Cred(pw if key is not None else None, key)
     try:
         mx = int(config['chunking'].get('max_length', 5_120_000))
     except Exception:
         mx = 5_120_000
-    f = usable(backend, cred, work, mx)
+    f = usable(backend, cred, work, mx, cache=cache)
     nontrivial = case['kind'] == 'dict' or sum([s['hashing'] != {'name': 'blake2b', 'length': 64},
                                                  bool(s.get('encryption')) and s['encryption']['cipher'].get('name') != 'aes_gcm',
                                                  True]) >= 2
